@@ -10,5 +10,6 @@ CONSTANTS
   KF_GuardOnVisibleOnly = FALSE
  KF_SurvivorsOnly = FALSE
  KF_RetryUnguarded = FALSE
+ KF_CloneSwap = FALSE
  MaxRetry = 2
   D = 40
